@@ -142,4 +142,43 @@ def extractDocument (sel : List Int) (n : Nat) : Except E (List MPage) :=
   | .ok idx => documentOf idx
   | .error e => .error e
 
+/-! ### page-level metadata of the layout operations (additive) -/
+
+/-- `Extractor.Headings`: `result.Headings[i].PageIndex = pageNum` for every heading detected on
+page `pageNum`, then `append(allHeadings, result.Headings...)` -/
+def stampPage {H : Type} (k : Nat) (hs : List H) : List (Nat × H) := hs.map fun h => (k, h)
+
+def headingsOf {H : Type} (pg : Nat → Except E (List H)) (idx : List Nat) : Except E (List (Nat × H)) :=
+  fragmentsOf (fun k => match pg k with
+    | .ok hs => .ok (stampPage k hs)
+    | .error e => .error e) idx
+
+/-- the renumbering loop of `Extractor.Analyze`:
+`pageResult.Elements[i].Index = len(combined.Elements) + i` (and `ZOrder` likewise), then append -/
+def indexFrom {L : Type} : Nat → List L → List (Nat × L)
+  | _, [] => []
+  | s, x :: xs => (s, x) :: indexFrom (s + 1) xs
+
+def renumber {L : Type} (acc : List (Nat × L)) (els : List L) : List (Nat × L) :=
+  acc ++ indexFrom acc.length els
+
+def analyzeOf {L : Type} (pg : Nat → Except E (List L)) (idx : List Nat) : Except E (List (Nat × L)) :=
+  match collect pg idx with
+  | .ok ess => .ok (ess.foldl renumber [])
+  | .error e => .error e
+
+/-- whole calls -/
+def extractHeadings {H : Type} (pg : Nat → Except E (List H)) (sel : List Int) (n : Nat) :
+    Except E (List (Nat × H)) :=
+  match resolvePages sel n with
+  | .ok idx => headingsOf pg idx
+  | .error e => .error e
+
+/-- `Analyze` refuses an empty page list ("no pages to process") -/
+def extractAnalysis {L : Type} (pg : Nat → Except E (List L)) (sel : List Int) (n : Nat) :
+    Except E (List (Nat × L)) :=
+  match resolvePages sel n with
+  | .ok idx => if idx.isEmpty then .error .nopages else analyzeOf pg idx
+  | .error e => .error e
+
 end Tabula.PageSel
